@@ -468,7 +468,7 @@ func main() {
 	}
 
 	// sessions: several requests by one caller who reuses its objects
-	nSess := envInt("C12_SESSIONS", r.Pick(4000, 200000))
+	nSess := envInt("C12_SESSIONS", r.Pick(4000, 100000))
 	const schunk = 100
 	vf.Parallel((nSess+schunk-1)/schunk, 16, func(c int) {
 		l := newLocal()
